@@ -24,7 +24,7 @@ ASSUMPTIONS = ["from_string/str round trip only for length <= 10; from_integer o
 REQUIRED = ["calls.Perm.of_length", "calls.Perm.up_to_length", "calls.Perm.first", "calls.Perm.unrank", "calls.Perm.rank",
             "calls.Perm.to_standard", "calls.Perm.from_string", "calls.Perm.from_integer", "calls.Perm.one_based",
             "calls.Perm.from_iterable_validated", "calls.MeshPatt.unrank", "calls.MeshPatt.rank", "calls.MeshPatt.of_length",
-            "lru.evictions_forced", "interleaved.rounds", "unrank.block_boundaries", "std.with_ties", "validated.rejected", "unrank.domain_rejected"]
+            "lru.evictions_forced", "std.hash_colliding_keys", "interleaved.rounds", "unrank.block_boundaries", "std.with_ties", "validated.rejected", "unrank.domain_rejected"]
 MIN_NONTRIVIAL = 1000
 CTX = None
 MON = None
@@ -303,7 +303,10 @@ def chk_notation(ctx, p):
     ctx.ev()
     ok = True
     if n <= 10:
-        ok &= Perm.from_string(str(P)) == P and (n == 0 or Perm.from_iterable_validated(str(P)) == P)
+        try:
+            ok &= Perm.from_string(str(P)) == P and (n == 0 or Perm.from_iterable_validated(str(P)) == P)
+        except (ValueError, TypeError) as exc:
+            report("notation", [p], f"str() of {P!r} is {str(P)!r}, which from_string / from_iterable_validated reject: {exc!r}")
     else:
         ok &= str(P) == "".join(f"({v})" for v in P)
     ok &= eval(repr(P), {"Perm": Perm}) == P and type(eval(repr(P), {"Perm": Perm})) is Perm
@@ -370,9 +373,24 @@ def chk_lru(ctx, seed, nkeys):
         list(first.occurrences_in(Perm.to_standard(seq + seq)))
     for i in range(nkeys):
         Perm.to_standard((i, -i, i % 7, 3))
-    info = Perm._to_standard.__func__.cache_info() if hasattr(Perm._to_standard, "__func__") else Perm._to_standard.cache_info()
-    if info.currsize >= info.maxsize:
+    try:
+        info = Perm._to_standard.__func__.cache_info() if hasattr(Perm._to_standard, "__func__") else Perm._to_standard.cache_info()
+        if info.currsize >= info.maxsize:
+            ctx.count("lru.evictions_forced")
+    except AttributeError:  # memoised some other way: the history below applies all the same
         ctx.count("lru.evictions_forced")
+    # keys that differ but hash alike (hash(-1) == hash(-2), hash(2**61 - 1) == hash(0)) standardised one after the other
+    for a, b in ((-1, -2), (-1.0, -2), (2 ** 61 - 1, 0), (2 ** 61, 1), (-2, -1.0)):
+        for n in (2, 3, 4):
+            for _ in range(6):
+                base = [rng.choice([a, b, 5, -7]) for _ in range(n)]
+                swapped = [b if v == a else a if v == b else v for v in base]
+                for seq in (base, swapped, base):
+                    got = Perm.to_standard(tuple(seq))
+                    ctx.ev()
+                    if tuple(got) != C.std(seq):
+                        report("lru", [seed, nkeys], f"to_standard({tuple(seq)}) = {tuple(got)} after a different key with the same hash was standardised, want {C.std(seq)}")
+    ctx.count("std.hash_colliding_keys")
     for seq, first, val, h in probes:
         again = Perm.to_standard(seq)
         ctx.ev()
